@@ -1003,6 +1003,14 @@ impl<'a> TransactionRangeIterator<'a> {
 		};
 
 		// Create a snapshot iterator for the range (now returns SnapshotIterator directly)
+		// An inverted range (start > end) contains no keys: clamp it to the empty
+		// range [start, start) instead of handing inverted bounds to the snapshot
+		// iterator and to `BTreeMap::range`, both of which panic on them.
+		let end_key = match (&start_key, end_key) {
+			(Some(start), Some(end)) if *start > end => Some(start.clone()),
+			(_, end) => end,
+		};
+
 		// An absent bound means unbounded on that side.
 		let snapshot_iter = snapshot.range(start_key.as_deref(), end_key.as_deref())?;
 
